@@ -68,7 +68,7 @@ func (m *M) get(p *path, fr *Frame, v ssa.Value) Value {
 	if val, ok := p.ov.regs[key]; ok {
 		return val
 	}
-	if val, ok := m.regs[key]; ok {
+	if val, ok := p.base[key]; ok {
 		return val
 	}
 	panic(fmt.Sprintf("register %s (%s) undefined in frame %s", v.Name(), v, fr.ID))
@@ -122,7 +122,7 @@ func (m *M) enabled(c *Config) *smt.Term {
 	}
 	fr := m.top(c)
 	instr := m.curInstr(c)
-	p := &path{cfg: c, g: m.c.T, ov: newOv(), probe: true}
+	p := &path{cfg: c, g: m.c.T, ov: newOv(), probe: true, base: m.snap[c.key()]}
 	switch x := instr.(type) {
 	case *ssa.Select:
 		if !x.Blocking {
@@ -138,6 +138,8 @@ func (m *M) enabled(c *Config) *smt.Term {
 			return m.chanReady(p, m.get(p, fr, x.X).(*VSet), types.RecvOnly)
 		}
 		return m.c.T
+	case *ssa.Send:
+		return m.chanReady(p, m.get(p, fr, x.Chan).(*VSet), types.SendOnly)
 	case *ssa.RunDefers:
 		if len(fr.Defers) > 0 {
 			d := fr.Defers[len(fr.Defers)-1]
@@ -398,14 +400,14 @@ func (m *M) finish(p *path, work *[]*path, results *[]*result) {
 	}
 	if len(p.spawns) > 0 {
 		child := p.spawns[0]
-		q := &path{cfg: child.clone(), g: p.g, ov: p.ov, first: false, spawns: p.spawns[1:], ghost: 0}
+		q := &path{cfg: child.clone(), g: p.g, ov: p.ov, first: false, spawns: p.spawns[1:], ghost: 0, base: p.base}
 		q.cfg.Status = stRun
 		q.carry = append(append([]*Config(nil), p.carry...), p.cfg)
 		*work = append(*work, q)
 		return
 	}
 	cfgs := append(append([]*Config(nil), p.carry...), p.cfg)
-	m.pruneRegs(cfgs, p.ov)
+	m.materialize(cfgs, p)
 	*results = append(*results, &result{cfgs: cfgs, g: p.g, ov: p.ov})
 }
 
@@ -588,13 +590,13 @@ func (m *M) mergePaths(p, q *path) {
 				p.ov.regs[k] = m.merge(q.g, v, pv)
 			}
 		} else {
-			base := m.regs[k]
+			base := p.base[k]
 			p.ov.regs[k] = m.merge(q.g, v, base)
 		}
 	}
 	for k, pv := range p.ov.regs {
 		if _, ok := q.ov.regs[k]; !ok {
-			if base, ok := m.regs[k]; ok {
+			if base, ok := p.base[k]; ok {
 				p.ov.regs[k] = m.merge(q.g, base, pv)
 			}
 		}
@@ -960,10 +962,15 @@ func (m *M) exec(p *path, fr *Frame, instr ssa.Instruction, work *[]*path) bool 
 		m.set(p, fr, x, m.get(p, fr, x.X))
 	case *ssa.MakeChan:
 		key := fmt.Sprintf("%s@%d.%d%s", fr.ID, fr.Blk, fr.Idx, loopsSig(fr.Loops))
-		a := m.alloc(key, chanObjType)
+		et := x.Type().Underlying().(*types.Chan).Elem()
+		a := m.alloc(key, chanType(et))
+		m.chanElem[a] = et
 		m.memSet(p, a, VBool{c.F})
 		m.memSet(p, a+1, VInt{c.BV(0, 64)})
 		m.memSet(p, a+2, m.get(p, fr, x.Size))
+		if n, ok := constInt(m.get(p, fr, x.Size).(VInt)); !ok || n > 1 {
+			m.chanMulti[a] = true // values are kept for one slot only
+		}
 		m.set(p, fr, x, m.addrSet(a))
 	case *ssa.Phi:
 		panic("phi reached directly")
@@ -1031,6 +1038,8 @@ func (m *M) exec(p *path, fr *Frame, instr ssa.Instruction, work *[]*path) bool 
 		return false
 	case *ssa.Select:
 		return m.sel(p, fr, x, work)
+	case *ssa.Send:
+		m.send(p, fr, x)
 	case *ssa.DebugRef:
 	default:
 		panic(unsupported(fmt.Sprintf("instruction %T: %s (in %s)", instr, instr, fr.Fn)))
@@ -1039,11 +1048,74 @@ func (m *M) exec(p *path, fr *Frame, instr ssa.Instruction, work *[]*path) bool 
 	return true
 }
 
-var chanObjType = types.NewStruct([]*types.Var{
-	types.NewVar(token.NoPos, nil, "closed", types.Typ[types.Bool]),
-	types.NewVar(token.NoPos, nil, "count", types.Typ[types.Int]),
-	types.NewVar(token.NoPos, nil, "cap", types.Typ[types.Int]),
-}, nil)
+// chanType: channel object = closed flag, element count, capacity, one value slot
+func chanType(elem types.Type) types.Type {
+	return types.NewStruct([]*types.Var{
+		types.NewVar(token.NoPos, nil, "closed", types.Typ[types.Bool]),
+		types.NewVar(token.NoPos, nil, "count", types.Typ[types.Int]),
+		types.NewVar(token.NoPos, nil, "cap", types.Typ[types.Int]),
+		types.NewVar(token.NoPos, nil, "val", elem),
+	}, nil)
+}
+
+// chanTake models the effect of a successful receive from the channels in s under guard g:
+// returns (value, ok); a buffered element is consumed.
+func (m *M) chanTake(p *path, s *VSet, g *smt.Term, et types.Type, instr ssa.Instruction) (Value, *smt.Term) {
+	c := m.c
+	var val Value = m.zero(et)
+	okT := c.F
+	n := len(leafTypes(et))
+	for _, al := range s.Alts {
+		a, isAddr := al.C.(Addr)
+		if !isAddr {
+			continue // Done() channels and nil: zero value, ok=false
+		}
+		cnt := m.memGet(p, a+1).(VInt).T
+		has := c.And(al.G, c.Not(c.Eq(cnt, c.BV(0, 64))))
+		if has.IsFalse() {
+			continue
+		}
+		if m.chanMulti[a] {
+			panic(unsupported("receive of a value from a channel with capacity > 1"))
+		}
+		leaves := make([]Value, n)
+		for i := 0; i < n; i++ {
+			leaves[i] = m.memGet(p, a+3+Addr(i))
+		}
+		pos := 0
+		v := m.unflatten(et, leaves, &pos)
+		val = m.merge(has, v, val)
+		okT = c.Or(okT, has)
+		take := c.And(g, has)
+		m.memSet(p, a+1, VInt{c.Ite(take, c.BinBV("bvsub", cnt, c.BV(1, 64)), cnt)})
+		m.record(p, a+1, true, false, instr)
+	}
+	return val, okT
+}
+
+func (m *M) send(p *path, fr *Frame, x *ssa.Send) {
+	c := m.c
+	s := m.get(p, fr, x.Chan).(*VSet)
+	et := x.Chan.Type().Underlying().(*types.Chan).Elem()
+	var leaves []Value
+	m.flatten(et, m.get(p, fr, x.X), &leaves)
+	for _, al := range s.Alts {
+		a, ok := al.C.(Addr)
+		if !ok {
+			continue // nil channel: never enabled
+		}
+		closed := m.memGet(p, a).(VBool).T
+		m.violate(p, "panic", "send-on-closed-chan", x, c.And(al.G, closed))
+		cnt := m.memGet(p, a+1).(VInt).T
+		m.memSet(p, a+1, VInt{c.Ite(al.G, c.BinBV("bvadd", cnt, c.BV(1, 64)), cnt)})
+		m.record(p, a+1, true, false, x)
+		if !m.chanMulti[a] {
+			for i, lv := range leaves {
+				m.memSet(p, a+3+Addr(i), m.merge(al.G, lv, m.memGet(p, a+3+Addr(i))))
+			}
+		}
+	}
+}
 
 var ctxObjStruct = types.NewStruct([]*types.Var{
 	types.NewVar(token.NoPos, nil, "cancelled", types.Typ[types.Bool]),
@@ -1056,7 +1128,7 @@ func (m *M) deferArgs(p *path, fr *Frame, d *DeferRec) VTuple {
 	if v, ok := p.ov.regs[key]; ok {
 		return v.(VTuple)
 	}
-	v, _ := m.regs[key].(VTuple)
+	v, _ := p.base[key].(VTuple)
 	return v
 }
 func (m *M) deferFn(p *path, fr *Frame, d *DeferRec) Value {
@@ -1064,7 +1136,7 @@ func (m *M) deferFn(p *path, fr *Frame, d *DeferRec) Value {
 	if v, ok := p.ov.regs[key]; ok {
 		return v
 	}
-	return m.regs[key]
+	return p.base[key]
 }
 
 // ret pops the frame and delivers the result.
@@ -1101,7 +1173,7 @@ func (m *M) pushFrame(p *path, fr *Frame, fn *ssa.Function, bind []Value, args [
 		id += fmt.Sprintf("#d%d", len(fr.Defers))
 	}
 	nf := &Frame{Fn: fn, ID: id, Loops: map[int]int{}, CallSite: site, Bind: bind, IsDefer: isDefer}
-	m.funcs[fn.String()] = true
+	m.noteFunc(fn)
 	for i, prm := range fn.Params {
 		m.set(p, nf, prm, args[i])
 	}
@@ -1264,8 +1336,11 @@ func (m *M) spawnGated(p *path, fr *Frame, ci ssa.Instruction, fn *ssa.Function,
 	th := m.newThread(key, name)
 	m.threads[th].Parent = p.cfg.Th
 	m.threads[th].Site = m.pos(ci)
+	if p.cfg.NSpawn < m.threads[th].ChildIdx {
+		m.threads[th].ChildIdx = p.cfg.NSpawn
+	}
 	nf := &Frame{Fn: fn, ID: fmt.Sprintf("T%d:%s", th, fn.Name()), Loops: map[int]int{}, Bind: bind}
-	m.funcs[fn.String()] = true
+	m.noteFunc(fn)
 	for i, prm := range fn.Params {
 		m.set(p, nf, prm, args[i])
 	}
@@ -1280,6 +1355,10 @@ func (m *M) spawnGated(p *path, fr *Frame, ci ssa.Instruction, fn *ssa.Function,
 	}
 	p.spawns = append(p.spawns, &Config{Th: th, Frames: []*Frame{nf}, Status: stStart, Gate: gate})
 	p.cfg.Spawned = true
+	p.cfg.NSpawn++
+	if th < 64 {
+		p.cfg.SpawnMask |= 1 << uint(th)
+	}
 }
 
 // advance past an intrinsic call, delivering its result.
@@ -1614,13 +1693,14 @@ func (m *M) appendOp(p *path, fr *Frame, ci ssa.CallInstruction, s, t VSlice) VS
 
 func (m *M) recv(p *path, fr *Frame, x *ssa.UnOp) {
 	s := m.get(p, fr, x.X).(*VSet)
-	// only chan struct{} / closed-channel receives in the prototype: value is zero
 	m.recordChan(p, s, x)
-	var res Value = m.zero(x.Type())
+	et := x.X.Type().Underlying().(*types.Chan).Elem()
+	val, okT := m.chanTake(p, s, m.c.T, et, x)
 	if x.CommaOk {
-		res = VTuple{m.zero(x.Type().(*types.Tuple).At(0).Type()), VBool{m.c.F}}
+		m.set(p, fr, x, VTuple{val, VBool{okT}})
+	} else {
+		m.set(p, fr, x, val)
 	}
-	m.set(p, fr, x, res)
 }
 
 func (m *M) recordChan(p *path, s *VSet, instr ssa.Instruction) {
@@ -1660,11 +1740,29 @@ func (m *M) sel(p *path, fr *Frame, x *ssa.Select, work *[]*path) bool {
 	key := fmt.Sprintf("sel!%s@%d.%d%s", fr.ID, fr.Blk, fr.Idx, loopsSig(fr.Loops))
 	ch := c.Var(key, 8)
 	m.Nondet[key] = ch
-	mk := func(idx int) Value {
+	mk := func(q *path, idx int) Value {
 		t := VTuple{VInt{c.BV(int64(idx), 64)}, VBool{c.F}}
 		tt := x.Type().(*types.Tuple)
 		for i := 2; i < tt.Len(); i++ {
 			t = append(t, m.zero(tt.At(i).Type()))
+		}
+		// the chosen receive takes a buffered value, if there is one
+		ri := 2
+		for i, st := range x.States {
+			if st.Dir != types.RecvOnly {
+				continue
+			}
+			if i == idx {
+				qfr := m.top(q.cfg)
+				cs := m.get(q, qfr, st.Chan).(*VSet)
+				et := st.Chan.Type().Underlying().(*types.Chan).Elem()
+				v, ok := m.chanTake(q, cs, c.T, et, x)
+				if ri < len(t) {
+					t[ri] = v
+				}
+				t[1] = VBool{ok}
+			}
+			ri++
 		}
 		return t
 	}
@@ -1713,7 +1811,7 @@ func (m *M) sel(p *path, fr *Frame, x *ssa.Select, work *[]*path) bool {
 			p.g = c.And(p.g, o.g)
 		}
 		qfr := m.top(q.cfg)
-		m.set(q, qfr, x, mk(o.idx))
+		m.set(q, qfr, x, mk(q, o.idx))
 		qfr.Idx++
 		if q != p {
 			*work = append(*work, q)
